@@ -27,8 +27,8 @@ import c20_gen as G
 META = {
     "category": "proof",
     "technique": "Coq model of the selector and of the wake-up protocol; invariants; differential runs on synthetic trees; trace acceptance of real threaded runs",
-    "text": "Coq theorems (Stall/Props_C20.v, closed under the global context) over an executable model of lsmtk's compaction selector (compute_bounds with its fixed-point loop and a proved fuel bound, trivial moves, find_best_compaction with saturating i64 scores and the byte/file limits, expand_compaction, may_choose_compaction, next_compaction with the mandatory logic and exact-rational level_factor) and over a transition system of the stall/compact condition variables: no wake-up is lost on either variable for every interleaving of client ingests and 1..K compaction threads; the store threads all wait on one another exactly when ingest is stalled, nothing is ongoing and the selector returns nothing, and that state is permanent; the selector returns a compaction in every stalled state outside the known class K-stall for every usize option setting (inside the class the statement is refuted and the deadlock is shown reachable); every choice of the selector is admissible (Lsm valid_compactionb, incl. the expanded candidates) and respects ongoing compactions; the selector never panics and its loop terminates on well-formed trees; every compaction it picks lowers a measure of the tree, so a run of select-and-apply steps between two ingests has at most mu(v) steps. The models are tied to the code by 3-way differential runs on generated trees (real next_compaction vs extracted model vs Python oracles), an exhaustive small-scope class search, and real multi-threaded store sessions whose critical-section traces are replayed on the model with an exact all-parked watchdog. F15 (README stall) was repaired in /repo (0634ccd).",
-    "note": "Liveness is proved in its safety form (no lost wake-up + stall_relievable + permanence of stuck states + a termination measure for sequential select-and-apply runs); not proved: the measure argument for a compaction selected on one version and applied to a later one (several compaction threads), scheduler/Mutex/Condvar fairness. Trusted: Coq kernel; extraction + ocaml/stall driver; harness c20 and the cfg(blue_verif) hooks verif_select / verif_parked / trace (critical sections of the compaction mutex are taken to be atomic); Rust Mutex/Condvar semantics; float tables compared with Rust on every run, cases within 2^-20 of an integer or |score| >= 2^32 counted as float-risk. Class K-stall: level 0 empty under a zero stall threshold; max_open_files <= |L0| + |L1 overlap| (or, when the mandatory condition does not hold under a stall, <= the number of files in the tree).",
+    "text": "Coq theorems (Stall/Props_C20.v, closed under the global context) over an executable model of lsmtk's compaction selector (compute_bounds with its fixed-point loop and a proved fuel bound, trivial moves, find_best_compaction with saturating i64 scores and the byte/file limits, expand_compaction, may_choose_compaction, next_compaction with the mandatory logic and exact-rational level_factor) and over a transition system of the stall/compact condition variables: no wake-up is lost on either variable for every interleaving of client ingests and 1..K compaction threads; the store threads all wait on one another exactly when ingest is stalled, nothing is ongoing and the selector returns nothing, and that state is permanent; the selector returns a compaction in every stalled state outside the known class K-stall for every usize option setting (inside the class the statement is refuted and the deadlock is shown reachable); every choice of the selector is admissible (Lsm valid_compactionb, incl. the expanded candidates) and respects ongoing compactions; the selector never panics and its loop terminates on well-formed trees; every compaction it picks lowers a measure of the tree, so a run of select-and-apply steps between two ingests has at most mu(v) steps. The models are tied to the code by 3-way differential runs on generated trees (real next_compaction vs extracted model vs Python oracles), an exhaustive small-scope class search, and real multi-threaded store sessions whose critical-section traces are replayed on the model with an exact all-parked watchdog. Compaction threads that return after an I/O error are covered (fault-injected sessions; the survivors must be woken). Repaired in /repo: F15, the README stall (0634ccd); the missing compact.notify_all() of a failing compaction thread (33fc9d3). Known classes: K-stall; waitlist-full (more writers in flight than wait-list slots, demonstrated on a 2-slot ring).",
+    "note": "Liveness is proved in its safety form (no lost wake-up + stall_relievable + permanence of stuck states + a termination measure for sequential select-and-apply runs); not proved: the run-level measure bound for several compaction threads (a compaction selected on one version and applied to a later one), well-formedness of the tree as an invariant of the protocol model (a hypothesis, asserted on every real run; C01 proves it for its own machine), liveness of put/delete/batch (safety in C06, hand-over liveness in C18, composition not stated), scheduler/Mutex/Condvar fairness. Trusted: Coq kernel; extraction + ocaml/stall driver; harness c20 and the cfg(blue_verif) hooks verif_select / verif_parked / trace (critical sections of the compaction mutex are taken to be atomic); Rust Mutex/Condvar semantics; float tables compared with Rust on every run, cases within 2^-20 of an integer or |score| >= 2^32 counted as float-risk. Class K-stall: level 0 empty under a zero stall threshold; max_open_files <= |L0| + |L1 overlap| (or, when the mandatory condition does not hold under a stall, <= the number of files in the tree).",
 }
 
 PROPS = "theories/Stall/Props_C20.v"
@@ -323,7 +323,13 @@ def gen_session(rng, tier):
     late_at = rng.range(1, rounds - 1) if late else 0
     script = [] if late else ["threads %d" % k]
     decreasing = rng.chance(1, 3)
+    # fault injection: from some round on every merging compaction fails with an I/O error (its
+    # thread returns) until the first compaction thread has returned; the other threads go on
+    fault = (not late) and k >= 2 and rng.chance(1, 6)
+    fault_at = rng.range(1, rounds - 1) if fault else -1
     for r in range(rounds):
+        if r == fault_at:
+            script.append("sabotage")
         if late and r == late_at:
             script.append("threads %d" % k)
             script.append("settle")
@@ -337,8 +343,11 @@ def gen_session(rng, tier):
             else:
                 script.append("put %s %s" % (key.hex(), (bytes([65 + rng.below(26)]) * sz).hex()))
         script.append("flushreq")
+        if r == fault_at:
+            script.append("waitexit")
+            script.append("unsabotage")
         script.append("flushwait")
-    return {"tag": tag + ("+late-threads" if late else ""), "opts": o, "k": k, "script": script}
+    return {"tag": tag + ("+late-threads" if late else "") + ("+fault" if fault else ""), "opts": o, "k": k, "script": script}
 
 
 def run_session(exe, mx, sess, work, idx):
@@ -361,6 +370,7 @@ def run_session(exe, mx, sess, work, idx):
         kcur = 0
         verdict = None
         pending_flush = False
+        faulty = "sabotage" in sess["script"]
         for op in sess["script"]:
             if op == "flushwait":
                 if kcur == 0 and pending_flush:
@@ -371,6 +381,9 @@ def run_session(exe, mx, sess, work, idx):
                         pending_flush = True      # no compaction thread exists yet: not a verdict
                         continue
                     verdict = "deadlock"
+                    break
+                if out == "FLUSHWAIT threadexit" and faulty and not any(t.startswith("THREAD memtable") for t in st.threads):
+                    verdict = "threadexit"        # every compaction thread returned after an injected fault: the premise is gone
                     break
                 if out != "FLUSHWAIT done":
                     res["problems"].append({"kind": "hang" if "timeout" in out or out == "HANG" else "error", "what": "flush did not complete: %s" % out, "threads": st.threads})
@@ -385,6 +398,9 @@ def run_session(exe, mx, sess, work, idx):
                 if v == "deadlock":
                     verdict = "deadlock"
                     break
+                if v == "threadexit" and faulty and not any(t.startswith("THREAD memtable") for t in st.threads):
+                    verdict = "threadexit"
+                    break
                 if v != "idle":
                     res["problems"].append({"kind": "hang", "what": "store did not settle after the compaction threads started: %s" % out, "threads": st.threads})
                     verdict = v
@@ -392,6 +408,8 @@ def run_session(exe, mx, sess, work, idx):
                 pending_flush = False
             elif op == "flushreq" and pending_flush:
                 continue
+            elif op == "waitexit":
+                st.cmd("waitexit 1500 1", timeout=30)
             elif op == "stepall":
                 for _ in range(200):
                     out = st.cmd("step", timeout=60)
@@ -449,9 +467,9 @@ def run_session(exe, mx, sess, work, idx):
                 continue
             if ev == "notify":
                 continue
-            if ev in ("ingest", "apply"):
+            if ev in ("ingest", "apply", "release"):
                 # the notify_all belongs to the same critical section: it is the next event
-                want = "notify %s %s" % (ws[1], "compact" if ev == "ingest" else "stall")
+                want = "notify %s %s" % (ws[1], "stall" if ev == "apply" else "compact")
                 nxt = tlines[n_ev + 1][2:] if n_ev + 1 < len(tlines) else ""
                 if nxt != want:
                     res["problems"].append({"kind": "property", "what": "%s was not followed by notify_all on `%s` in its critical section (a sleeper would miss the event it waits for)" % (ev, want.split()[-1]), "event": ln[:200], "next": nxt[:100]})
@@ -722,6 +740,8 @@ def run(chk):
                 chk.known("K-stall", "real threads: the flush thread parked on `stall`, every compaction thread parked on `compact`, nothing ongoing, no wake-up pending (options inside the class)")
             elif "deadlock_known" in r:
                 problems.append({"kind": "property", "what": "real threads: every store thread is parked and no wake-up is pending, outside the known class", "session": replay, "model": r.get("model_q")})
+        elif r["verdict"] == "threadexit" and "sabotage" in sess["script"]:
+            sess_stats["all_compaction_threads_returned_after_fault"] = sess_stats.get("all_compaction_threads_returned_after_fault", 0) + 1
         elif r["verdict"] not in ("idle",):
             if not any(p["kind"] in ("hang", "write", "error") for p in r["problems"]):
                 problems.append({"kind": "corr", "what": "session ended with verdict %s" % r["verdict"], "session": replay})
@@ -729,9 +749,41 @@ def run(chk):
             sess_stats["latent_stalls_known"] += 1
         elif r.get("latent_stall_known") is False:
             problems.append({"kind": "property", "what": "idle store whose next ingest would stall forever, outside the known class", "session": replay, "model": r.get("model_q")})
-        if expect and r["verdict"] != expect:
-            problems.append({"kind": "property" if expect == "idle" else "corr", "what": "corpus session: expected verdict %s, got %s" % (expect, r["verdict"]), "session": replay})
+        if expect and r["verdict"] not in (expect if isinstance(expect, list) else [expect]):
+            problems.append({"kind": "property" if "idle" in expect else "corr", "what": "corpus session: expected verdict %s, got %s" % (expect, r["verdict"]), "session": replay})
     t_sess = time.time() - t0
+
+    # ---- the write path against a full wait-list ring (known class waitlist-full)
+    # KeyValueStore::write links into the wait list while holding the store mutex; when every slot
+    # is linked, link sleeps with the mutex held and nobody can unlink.  At production size that
+    # needs MAX_CONCURRENCY + 1 = 65537 writers inside write() at once (not runnable here); the
+    # ring is made small through the existing hook sync42::verif::set_slots.  Sessions with
+    # writers <= slots must never stick.
+    ring_stats = {"demonstrated": False, "controls": 0, "lines": []}
+
+    def ring_run(slots, writers):
+        d = os.path.join("/dev/shm" if os.path.isdir("/dev/shm") else chk.work, "blue_verif_c20_ring_%d" % os.getpid())
+        shutil.rmtree(d, ignore_errors=True)
+        rc, out = vlib.sh([hxbin, "ring", d, str(slots), str(writers), "2500"], timeout=60)
+        shutil.rmtree(d, ignore_errors=True)
+        ln = [l for l in out.split("\n") if l.startswith("RING")]
+        ring_stats["lines"].append(ln[-1] if ln else "no output")
+        return ln[-1] if ln else "RING verdict=nooutput"
+
+    ln = ring_run(2, 3)
+    if "verdict=allstuck" in ln and "gate_parked=1" in ln:
+        ring_stats["demonstrated"] = True
+        chk.known("waitlist-full", "more writers inside KeyValueStore::write than the wait list has slots: the extra writer sleeps in WaitList::link holding the store mutex and no put/get/flush ever returns (demonstrated with the ring set to 2 slots through the hook sync42::verif::set_slots and 3 writers + 1 reader: `c20 ring DIR 2 3 2500` -> %s; at production size it takes 65537 writers in flight)" % ln)
+    elif "verdict=allreturned" in ln:
+        chk.notes.append("waitlist-full no longer reproduces with 3 writers on a 2-slot ring: " + ln)
+    else:
+        problems.append({"kind": "corr", "what": "ring session (3 writers, 2 slots) ended neither all-stuck nor all-returned", "line": ln})
+    for slots, writers in ((2, 2), (3, 3), (4, 3), (8, 5)) if quick else ((2, 1), (2, 2), (3, 2), (3, 3), (4, 3), (4, 4), (8, 5), (8, 8), (16, 12)):
+        ln = ring_run(slots, writers)
+        ring_stats["controls"] += 1
+        if "verdict=allreturned" not in ln:
+            problems.append({"kind": "property", "what": "a put or get did not return although no more writers were in flight than the wait list has slots", "ring": ln,
+                             "replay_cmd": "work/target/release/c20 ring /dev/shm/x %d %d 2500" % (slots, writers)})
 
     # ---- evidence
     samples = [lines[ncorpus + nsmall + 3][:500], lines[-1][:500]] if len(lines) > ncorpus + nsmall + 3 else lines[:2]
@@ -746,6 +798,7 @@ def run(chk):
                                "float_risk_cases": n_risk, "float_risk_mismatches_skipped": n_risk_mismatch},
         "class_search": small_tally,
         "sessions": sess_stats,
+        "waitlist_ring": ring_stats,
         "correspondence": "real Version::next_compaction (hook verif_select) vs extracted Coq model vs Python oracles, 3-way; real threaded store sessions replayed event by event on the extracted model",
         "disagreements_impl_vs_model": sum(1 for p in problems if p["kind"] == "corr"),
         "disagreements_impl_vs_spec": sum(1 for p in problems if p["kind"] == "property"),
@@ -761,7 +814,7 @@ def run(chk):
     })
     chk.assumptions = [
         "trees are well-formed (sel_wfb: files non-empty and sorted, levels >= 1 sorted, unique setsums, distinct level-0 timestamps, sizes < 2^63); checked on every tree of the run",
-        "no I/O error ends a compaction thread (the property's own premise: the threads are running)",
+        "the flush thread and at least one compaction thread are running (the property's premise); compaction threads that return after an I/O error are covered as long as one is left",
         "scheduler fairness and termination of a sequence of compactions are not part of the theorems",
     ]
 
